@@ -377,6 +377,11 @@ class HomeKitConnection:
             await self._connector
         except asyncio.CancelledError:
             pass
+        except Exception:
+            # The connector had already finished with an error (for example an
+            # AuthenticationError); it was reported through last_connector_error
+            # and to the callers waiting for the connection, closing must not raise it again.
+            pass
 
     async def get(self, target: str) -> HttpResponse:
         """
